@@ -107,8 +107,35 @@ pub fn parse_board(fen: &str) -> Result<Board, String> {
 
 /// Read a real board back through its accessors into a reference position.  Castling rights
 /// and the ep marker have no accessor; they are recovered from the `Debug` rendering
-/// ("castle rights: KQkq", "en-passant: D"), which is independent of the FEN writer.
+/// ("castle rights: KQkq", "en-passant: D"), which is independent of the FEN writer, and then
+/// CONFIRMED through `Eq`: the candidate position is written as FEN by the reference, parsed,
+/// and must compare equal to `b`.  If it does not (the Debug format changed, say), all 16 x 9
+/// (rights, marker) candidates are probed through `Eq`, so a cosmetic change of the Debug text
+/// cannot turn into a false alarm.
 pub fn read_back(b: &Board) -> Position {
+    let p = read_back_debug(b);
+    let confirm = |q: &Position| -> Option<bool> { parse_board(&q.to_fen()).ok().map(|x| x == *b) };
+    match confirm(&p) {
+        Some(true) | None => p,
+        Some(false) => {
+            for r in 0..16u8 {
+                for ep in (0..8).map(Some).chain([None]) {
+                    let mut q = p.clone();
+                    for i in 0..4 {
+                        q.rights[i] = r & (1 << i) != 0;
+                    }
+                    q.ep = ep;
+                    if confirm(&q) == Some(true) {
+                        return q;
+                    }
+                }
+            }
+            p
+        }
+    }
+}
+
+fn read_back_debug(b: &Board) -> Position {
     let mut p = Position::empty();
     for s in 0..64u8 {
         p.board[s as usize] = b.raw().get(pos(s)).map(|(c, pc)| (ref_color(c), ref_piece(pc)));
@@ -285,6 +312,14 @@ impl Report {
     /// Print KNOWN-FINDING / VIOLATION lines, write replay files; returns the number of
     /// violations that are not listed as known.
     pub fn conclude(&self) -> u64 {
+        if std::env::var("VCHECK_SUBRUN").is_ok() {
+            // a sub-run (same check in another build flavour) hands its divergences to the parent
+            let g = self.inner.lock().unwrap();
+            for (class, (count, _case, detail)) in g.by_class.iter() {
+                println!("SUBRUN-DIVERGENCE\t{class}\t{count}\t{}", detail.replace('\n', " "));
+            }
+            return g.by_class.len() as u64;
+        }
         if is_worker() {
             // a worker only looks for crashes; value divergences are the owning property's business
             return 0;
@@ -330,6 +365,10 @@ impl Report {
 
     /// write /verif/evidence/<id>.json
     pub fn write_evidence(&self, coverage: Value, assumptions: &[&str], violations: u64) {
+        if std::env::var("VCHECK_SUBRUN").is_ok() {
+            println!("SUBRUN-COVERAGE {}", json!({"evaluations": coverage["evaluations"], "bmi2_path": coverage["bmi2_path"]}));
+            return;
+        }
         if is_worker() {
             println!("WORKER-COVERAGE {} {}", self.property, serde_json::to_string(&json!({"evaluations": coverage["evaluations"], "states": coverage["states"]})).unwrap());
             return;
